@@ -62,7 +62,7 @@ def place_demos(d):
     if os.path.exists(os.path.join(d, "placement.json")):
         override = json.load(open(os.path.join(d, "placement.json")))
     for f in sorted(os.listdir(d)):
-        if not (f.endswith(".rs") and f.startswith("demo")):
+        if not (f.endswith(".rs") and "demo" in f):
             continue
         crate = override.get(f) or ("derive" if "derive" in f else ("vm" if "_vm" in f else default))
         name = "seeddemo_" + re.sub(r"\W", "_", f[:-3])
@@ -71,7 +71,7 @@ def place_demos(d):
         shutil.copy2(os.path.join(d, f), dst)
         pkg = {"pest": "pest", "vm": "pest_vm", "meta": "pest_meta", "derive": "pest_derive", "generator": "pest_generator",
                "grammars": "pest_grammars", "debugger": "pest_debugger"}[crate]
-        out.append((pkg, name, feats))
+        out.append((pkg, name, override.get("features", feats)))
     return out
 
 
@@ -102,7 +102,7 @@ def run_demos(d, demos):
     all_ok = True
     log = ""
     for pkg, name, feats in demos:
-        cmd = f"cargo test -p {pkg} --test {name} --offline" + (f" --features {feats}" if feats and pkg in ("pest_vm", "pest_meta", "pest_derive") else "") + " 2>&1 | tail -25"
+        cmd = f"cargo test -p {pkg} --test {name} --offline" + (f" --features {feats}" if feats and (pkg in ("pest_vm", "pest_meta", "pest_derive") or feats != "grammar-extras") else "") + " 2>&1 | tail -25"
         rc, out = sh(cmd, cwd=WT)
         results = re.findall(r"test result: (\w+)\.", out)
         ok = bool(results) and all(r == "ok" for r in results)
